@@ -2,8 +2,11 @@ package props
 
 import (
 	"fmt"
+	"runtime"
 	"sort"
 	"strings"
+	"sync/atomic"
+	"time"
 
 	"verif/run"
 	"verif/sim"
@@ -26,6 +29,7 @@ type pubParams struct {
 	Restarts  int     // stops with AdoptSession on the same Persistence after the publish phase
 	HoldP     float64 // when non-zero: probability that the broker withholds an acknowledgement
 	Volatile  bool    // VolatileSession: the library's own in-memory store
+	SlowSaves bool    // scheduling noise at the entry of Persistence.Save
 }
 
 func sizeOf(c *run.Ctx, bigP float64) int {
@@ -79,6 +83,19 @@ func runPubWorkload(c *run.Ctx, pp pubParams) (*Episode, *pubAnalysis, []*sim.Pu
 	}
 	if !pp.Snaps && c.Rng.Intn(3) == 0 {
 		ep.W.Store.AliasLoad = true
+	}
+	if pp.SlowSaves {
+		var tick atomic.Int64
+		ep.W.Store.PreCopy = func() {
+			switch tick.Add(1) % 4 {
+			case 0:
+				runtime.Gosched()
+			case 1:
+				time.Sleep(40 * time.Microsecond)
+			case 2:
+				time.Sleep(300 * time.Microsecond)
+			}
+		}
 	}
 	if pp.Volatile {
 		pp.Restarts = 0
